@@ -245,6 +245,7 @@ func runC17(c *fw.Ctx) {
 	tr := &hx.Tracer{}
 	hx.InstallTrace(base, tr)
 	r := c.Rand("progs")
+	r17names := c.Rand("module-names")
 	for i := 0; i < c.PerShard(c.Pick(600000, 15000000)); i++ {
 		text, fault, wrappers, mode, cont, fline, callSpan, callLine := c17Program(r)
 		c.Case(fmt.Sprintf("p-%d", i), text, func() {
@@ -255,6 +256,17 @@ func runC17(c *fw.Ctx) {
 				c.Count("texts_read_before_under_another_module", 1)
 			}
 			cursor := types.NewCursorFile(module)
+			if i%5 == 2 {
+				// the module name comes from the header line load-file writes (";; $MODULE <name>") and the text is read
+				// without a cursor; names as file systems allow them: blanks, two blanks, backslashes, non-ASCII, a '$'
+				// (seeded C17-m14). Every line of the program moves down by one.
+				module = gen.Pick(r17names, []string{"my programs/prog one.lisp", "dir  with two blanks/p.lisp", `C:\Users\x y\p.lisp`, "répertoire/données.lisp", "a$b/c;d.lisp", "plain.lisp"})
+				text = ";; $MODULE " + module + "\n" + text
+				cursor = nil
+				fline, callLine = fline+1, callLine+1
+				cont.start, cont.end, callSpan.start, callSpan.end = cont.start+1, cont.end+1, callSpan.start+1, callSpan.end+1
+				c.Count("module_name_from_header_line", 1)
+			}
 			ast, err := lisp.READ(text, cursor, nil)
 			if err != nil {
 				c.Violate(fw.Violation{Key: "read-error", What: "generated program rejected by READ: " + err.Error()})
@@ -321,7 +333,7 @@ func init() {
 	fw.Register(&fw.Property{
 		ID:     "C17",
 		Run:    runC17,
-		Rule:   "seeded programs: (do + 0-3 correct multi-line top-level forms + exactly one planted fault (10 kinds: undefined symbol/function, throw of string/map, division by zero, nth out of range, type error, assert false/nil, non-callable head) wrapped to depth 0-5 in let/let-binding/if/do/fn-call/vector/map-literal/cond/and/or/->/->>/call-argument/after a multi-line raw string + 0-2 correct forms, with comments (containing brackets and quotes), blank lines and multi-line raw strings between any tokens; the fault sits directly in a top-level form or in the body of a function/closure defined in one form and called from a later one (directly, nested, through map/apply/swap!); the generator knows the line span of every top-level form and the fault's first line; a positioned error must name the module, lie within the containing top-level form and cover the fault's line (for faults reached through a higher-order builtin, the position of that builtin call is accepted as well); distinct = (fault kind, mode, wrapper chain); faults evaluated at macro-expansion time of a macro defined in an earlier form; module names vary per reading and every fourth text is first read under another module name",
+		Rule:   "seeded programs: (do + 0-3 correct multi-line top-level forms + exactly one planted fault (10 kinds: undefined symbol/function, throw of string/map, division by zero, nth out of range, type error, assert false/nil, non-callable head) wrapped to depth 0-5 in let/let-binding/if/do/fn-call/vector/map-literal/cond/and/or/->/->>/call-argument/after a multi-line raw string + 0-2 correct forms, with comments (containing brackets and quotes), blank lines and multi-line raw strings between any tokens; the fault sits directly in a top-level form or in the body of a function/closure defined in one form and called from a later one (directly, nested, through map/apply/swap!); the generator knows the line span of every top-level form and the fault's first line; a positioned error must name the module, lie within the containing top-level form and cover the fault's line (for faults reached through a higher-order builtin, the position of that builtin call is accepted as well); distinct = (fault kind, mode, wrapper chain); faults evaluated at macro-expansion time of a macro defined in an earlier form; module names vary per reading and every fourth text is first read under another module name; every fifth text gets its module name from a ';; $MODULE <name>' header line (names with blanks, backslashes, non-ASCII) and is read without a cursor",
 		Assume: []string{"columns are not part of the statement", "errors without position are counted, not judged", "errors raised on other threads are excluded"},
 		Finish: func(m *fw.Merged) {
 			m.Floor("errors_with_position", 1000)
